@@ -76,6 +76,8 @@ struct Mon {
     grafts_at_high: u64,
     ineligible_seen: u64,
     joined_left_events: u64,
+    /// the FIFO of RPCs the raw peers sent no longer lines up with what the node processes: the ledger cannot be trusted
+    desync: bool,
     single_closes: u64,
     fanout_negative_eligible: u64,
 }
@@ -211,6 +213,7 @@ struct Out {
     fanout_negative_eligible: u64,
     fanout_publishes: u64,
     quiescent: bool,
+    desync: bool,
     peers: usize,
 }
 
@@ -285,6 +288,13 @@ fn run_case(rng: &mut Rng) -> Out {
             mm.observe(g, "before handler event");
             if let gs::verif::HandlerEvent::Message { .. } = ev {
                 let rpc = mm.sent.get_mut(&peer).and_then(|q| q.pop_front());
+                // self-check of the FIFO pairing: the event's Debug output names every control message it carries
+                let dbg = format!("{ev:?}");
+                let (g, p) = (dbg.matches("Graft(Graft").count(), dbg.matches("Prune(Prune").count());
+                match &rpc {
+                    Some(r) if r.graft.len() == g && r.prune.len() == p => {}
+                    _ => mm.desync = true,
+                }
                 if let Some(rpc) = rpc {
                     let now = gs::verif::clock::offset();
                     for t in &rpc.graft {
@@ -454,6 +464,10 @@ fn run_case(rng: &mut Rng) -> Out {
                 describe = format!("p{k}: reconnect");
                 let connected = rig.raw[k].as_ref().map(|c| !c.connections(&p0).is_empty()).unwrap_or(false);
                 if !connected {
+                    // RPCs written after the disconnect went to a dead stream and will never be processed: once the net
+                    // is quiescent whatever is still in the FIFO of sent RPCs is lost, not pending
+                    rig.run(400_000, &mut sink);
+                    mon.borrow_mut().sent.remove(&pk);
                     rig.connect(k, 0);
                     rig.run(400_000, &mut sink);
                     rig.raw_open_all(k);
@@ -530,6 +544,7 @@ fn run_case(rng: &mut Rng) -> Out {
     let quiescent = rig.run(800_000, &mut sink);
     drain(&mut rig, &mon);
     let mm = mon.borrow();
+    let desync = mm.desync;
     Out {
         sig: sig.0,
         interleaving: rig.net.trace.0,
@@ -544,6 +559,7 @@ fn run_case(rng: &mut Rng) -> Out {
         fanout_negative_eligible: mm.fanout_negative_eligible,
         fanout_publishes,
         quiescent,
+        desync,
         peers: n_peers,
     }
 }
@@ -567,6 +583,11 @@ fn run_common(args: &Args, prop: &'static str) -> i32 {
         let o = run_case(rng);
         if !o.quiescent {
             check.inconclusive("not quiescent");
+        }
+        if o.desync {
+            // harness self-check failed: do not judge this history
+            check.inconclusive("monitor lost track of which sent RPC the node is processing");
+            return;
         }
         check.case(o.sig, o.additions > 0 && o.joined_left > 0 && o.ineligible > 0);
         check.distinct("distinct_interleavings", o.interleaving);
